@@ -3,7 +3,7 @@ from collections.abc import Iterable
 from contextlib import AbstractAsyncContextManager
 from itertools import chain
 from types import TracebackType
-from typing import final
+from typing import cast, final
 
 from haiway.state import State
 from haiway.utils import freeze
@@ -45,14 +45,53 @@ class Disposables:
                 return multiple
 
     async def __aenter__(self) -> Iterable[State]:
-        return [
-            *chain.from_iterable(
-                state
-                for state in await gather(
-                    *[self._initialize(disposable) for disposable in self._disposables],
-                )
+        initialized: list[Disposable] = []
+
+        async def initialize(disposable: Disposable) -> Iterable[State]:
+            state: Iterable[State] = await self._initialize(disposable)
+            initialized.append(disposable)
+            return state
+
+        try:
+            results: list[Iterable[State] | BaseException] = await gather(
+                *[initialize(disposable) for disposable in self._disposables],
+                return_exceptions=True,
             )
-        ]
+
+        except BaseException as exc:  # interrupted, dispose what was already initialized
+            await self._dispose(initialized, exc)
+            raise
+
+        exceptions: list[BaseException] = [exc for exc in results if isinstance(exc, BaseException)]
+        if exceptions:
+            failure: BaseException = (
+                exceptions[0]
+                if len(exceptions) == 1
+                else BaseExceptionGroup("Disposables initialization errors", exceptions)
+            )
+            # dispose what was already initialized before propagating the failure
+            await self._dispose(initialized, failure)
+            raise failure
+
+        return [*chain.from_iterable(cast(list[Iterable[State]], results))]
+
+    async def _dispose(
+        self,
+        disposables: Iterable[Disposable],
+        exception: BaseException,
+        /,
+    ) -> None:
+        await gather(
+            *[
+                disposable.__aexit__(
+                    type(exception),
+                    exception,
+                    exception.__traceback__,
+                )
+                for disposable in disposables
+            ],
+            return_exceptions=True,
+        )
 
     async def __aexit__(
         self,
